@@ -6,7 +6,7 @@ def main(tier, seed, t0, only=None):
     plan = [(1, 3, 0, 0, 2), (1, 3, 0, 1, 2), (2, 0, 0, 0, 8), (2, 1, 0, 0, 4), (2, 2, 0, 0, 16), (2, 0, 0, 1, 8),
             (2, 0, 0, 2, 8), (2, 0, 0, 3, 8), (1, 0, 16, 0, 2), (1, 0, 17, 0, 2), (1, 0, 24, 0, 2), (1, 0, 25, 0, 2), (1, 1, 16, 0, 2), (1, 1, 24, 0, 2), (1, 1, 36, 0, 2)]
     if not q: plan += [(3, 0, 0, 0, 16), (3, 1, 0, 0, 16), (2, 3, 0, 0, 16), (2, 0, 16, 0, 16), (2, 0, 24, 0, 16), (2, 1, 16, 0, 16), (2, 2, 0, 1, 16)]
-    J = domfam.jobs('C12', 1, tier, plan=plan) + domfam.jobs('C12', 1, tier, defines=('ALLOC_SIMPLE',), plan=plan[:6] if q else plan)
+    J = domfam.jobs('C12', 1, tier, plan=plan) + domfam.jobs('C12', 1, tier, defines=('ALLOC_SIMPLE',), plan=(plan[:6] + [(2, 0, 0, 2, 8), (1, 0, 0, 3, 2)]) if q else plan)
     if only: J = [j for j in J if re.search(only, j.name)]
     res = runner.run_jobs(J)
     return runner.finish('C12', tier, seed, res, 'model_checking',
